@@ -50,18 +50,41 @@ package jsonapi
 //@ loop 2 invariant frame: unchanged(heap[string]) && unchanged(heap[SimpleURL]) && unchanged(heap[[]string]) && unchanged(maps[map[string][]string]) && unchanged(maps[map[string]any]) && unchanged(heap[Filter]) && unchanged(heap[uint8])
 //@ loop 2 invariant values: values != nil && values != sURL.Fields && (forall k string :: k in values ==> len(values[k]) >= 1)
 
-// NewParams: contract assumed for now (18 loops; not yet brought under proof): it
-// only allocates, and returns either an error or a result.
-// targetsExist: every relationship's target type exists (a consequence of coherent(schema), C15).
-//@ spec targetsExist(s *Schema) = forall i int, k string :: 0 <= i && i < len(s.Types) && k in s.Types[i].Rels ==> hasType(s, s.Types[i].Rels[k].ToType)
-
+// NewParams: proved panic-free with error-xor-result; its frame (it only writes
+// objects it allocates) is declared and assumed (flag noframe), not yet proved.
+//@ spec pFresh(params *Params) = forall k string :: k in params.Fields ==> fresh(params.Fields[k])
+//@ spec pOK(params *Params, schema *Schema) = schema != nil && params != nil && fresh(params) && params.Fields != nil && fresh(params.Fields) && params.Attrs != nil && params.Rels != nil && unchanged(heap[string]) && pFresh(params)
 //@ func NewParams
-//@ flag trusted
+//@ flag noframe
+//@ flag absolute-quantifiers
 //@ props C07
 //@ requires schema: schema != nil
 //@ requires su: suWf(su)
 //@ modifies new[Params], new[string], new[[]string], new[map[string][]string], new[map[string][]Attr], new[map[string][]Rel], new[Attr], new[Rel], new[[]Rel]
 //@ ensures error-xor-result: (result1 != nil) == (result0 == nil)
+//@ loop 0 invariant idx: -1 <= i && i < len(incs) && fresh(incs)
+//@ loop 0 invariant p: pOK(params, schema)
+//@ loop 1 invariant idx: 0 <= i#1 && fresh(incs)
+//@ loop 1 invariant p: pOK(params, schema)
+//@ loop 2 invariant idx: 0 <= i#1 && i#1 < len(incs) && fresh(incs)
+//@ loop 2 invariant p: pOK(params, schema)
+//@ loop 3 invariant inc: len(params.Include) == len(incs) && incs == pre(incs)
+//@ loop 3 invariant p: pOK(params, schema)
+//@ loop 4 invariant inc: len(params.Include) == len(incs) && incs == pre(incs) && $idx#3 >= 0 && $idx#3 < len(incs) && i#2 == $idx#3 && len(params.Include[$idx#3]) == len(words#1) && words#1 == pre(words#1)
+//@ loop 4 invariant p: pOK(params, schema)
+//@ loop 5 invariant p: pOK(params, schema)
+//@ loop 6 invariant p: pOK(params, schema)
+//@ loop 7 invariant p: pOK(params, schema)
+//@ loop 8 invariant p: pOK(params, schema)
+//@ loop 9 invariant p: pOK(params, schema) && j >= 0
+//@ loop 10 invariant p: pOK(params, schema)
+//@ loop 11 invariant p: pOK(params, schema)
+//@ loop 12 invariant p: pOK(params, schema)
+//@ loop 13 invariant p: pOK(params, schema)
+//@ loop 14 invariant p: pOK(params, schema) && nonEmptyItems(su.SortingRules) && nonEmptyItems(sortingRules) && fresh(sortingRules)
+//@ loop 15 invariant p: pOK(params, schema) && nonEmptyItems(su.SortingRules) && nonEmptyItems(sortingRules) && fresh(sortingRules)
+//@ loop 16 invariant p: pOK(params, schema) && nonEmptyItems(sortingRules) && fresh(restOfRules) && ptr(restOfRules) >= ptr(sortingRules) + cap(sortingRules)
+//@ loop 17 invariant p: pOK(params, schema) && nonEmptyItems(sortingRules) && fresh(restOfRules) && ptr(restOfRules) >= ptr(sortingRules) + cap(sortingRules)
 
 //@ func NewURL
 //@ flag post-per-return
